@@ -167,7 +167,7 @@ def run(ctx):
         """ops: list of ('q', n) | ('t', et, oa) | ('c', n) | ('a', n) | ('v', n); the pair that was set LAST is what is stored"""
         set_tv(tv)
         k = 16 if g else 8
-        txt = ";".join(f"t{so(o[1])}:{so(o[2])}" if o[0] == "t" else f"{o[0]}{o[1]}" for o in ops)
+        txt = ";".join(f"t{so(o[1])}:{so(o[2])}" if o[0] == "t" else f"{o[0]}{so(o[1])}" if o[0] in "TA" else f"{o[0]}{o[1]}" for o in ops)
         cmd = f"seq {g} {so(et0)} {so(oa0)} {txt}"
         st, e = common.outcome(lambda: Eff(effect_type=et0, object_attributes=oa0))
         if st != "ok":
@@ -190,6 +190,10 @@ def run(ctx):
                     e.effect_type = o[1]
                     e.object_attributes = o[2]
                     et, oa = o[1], o[2]
+                elif o[0] == "T":             # only the type is assigned
+                    e.effect_type = o[1]; et = o[1]
+                elif o[0] == "A":             # only the attribute is assigned
+                    e.object_attributes = o[1]; oa = o[1]
                 elif o[0] == "c":
                     e.armour_attack_class = o[1]; cls = o[1]
                 elif o[0] == "a":
@@ -284,6 +288,11 @@ def run(ctx):
             do_seq(tv, g, int(PQ[0]), oa, [("c", 3), ("a", 5), ("q", 2 * 2 ** (16 if g else 8) + 7), ("a", 9)])
         for et in [int(x) for x in AA]:
             do_seq(tv, g, et, None, [("c", 3), ("a", 5), ("q", 2 * 2 ** (16 if g else 8) + 7), ("a", 9), ("c", 1)])
+    for tv, g in [(2.4, 0), (2.5, 1)]:
+        for et in [int(x) for x in AA]:
+            do_seq(tv, g, plain_types[0], None, [("T", et), ("c", 3), ("a", 5)])
+            do_seq(tv, g, plain_types[1], -1, [("c", 3), ("T", et), ("a", 7)])
+        do_seq(tv, g, int(PQ[0]), HP, [("A", int(ATTRS[0])), ("c", 3), ("a", 5)])
     for _ in range(ctx.budget(1500, 20000)):
         tv, g = rng.choice([(2.4, 0), (2.5, 1), (3.9, 1)])
         kk = 16 if g else 8
@@ -293,8 +302,12 @@ def run(ctx):
             r = rng.random()
             if r < 0.25:
                 ops.append(("q", rng.choice([rng.randrange(2 ** kk), rng.randrange(2 ** (2 * kk)), 300, 0])))
-            elif r < 0.45:
+            elif r < 0.35:
                 ops.append(("t", rng.choice(fam_types + plain_types[:1]), rng.choice(attr_vals[:3])))
+            elif r < 0.41:
+                ops.append(("T", rng.choice(fam_types + plain_types[:1])))
+            elif r < 0.45:
+                ops.append(("A", rng.choice(attr_vals[:3])))
             elif r < 0.65:
                 ops.append(("c", rng.randrange(2 ** kk if rng.random() < 0.5 else 40)))
             elif r < 0.85:
